@@ -7,11 +7,11 @@ Open Scope string_scope.
 
 Check (C14_op_table_wf : table_ok binops prefixops max_level primops op_spelling infix_ops postfix_ops = true).
 Check (C14_parse_print_core :
-  forall t, core infix_ops repaired_code t -> pa repaired_code (pr repaired_code t) = Some t).
+  forall t, core primops infix_ops repaired_code t -> pa repaired_code (pr repaired_code t) = Some t).
 Check (C14_print_fixpoint_core :
-  forall t t', core infix_ops repaired_code t ->
+  forall t t', core primops infix_ops repaired_code t ->
     pa repaired_code (pr repaired_code t) = Some t' -> pr repaired_code t' = pr repaired_code t).
-Check (C14_core_nonvacuous : core infix_ops repaired_code ex_core).
+Check (C14_core_nonvacuous : core primops infix_ops repaired_code ex_core).
 Check (C14_multiline_delim_safe :
   forall cs : list chunk, no_adjacent_lits cs ->
     lex (S (nb_percent cs)) (render (nb_percent cs) cs) DStart = expected cs).
